@@ -33,8 +33,10 @@ Definition type_name (t : mtype) : qstr :=
              | Fatal => qs "fatal" | Info => qs "info" end.
 (* m_tid: any key that distinguishes the emitting threads (only equality is used);
    m_time: the text of QDateTime::toString("dd.MM.yyyy hh:mm:ss") for the message's time stamp,
-   supplied by the environment (QDateTime is outside the model) *)
-Record msg := { m_type : mtype; m_cat : qstr; m_text : qstr; m_tid : N; m_time : qstr }.
+   supplied by the environment (QDateTime is outside the model);
+   m_day: the calendar day of the time stamp (days since the epoch; only equality is used — daily
+   rotation of the log file compares the message's date with the date of the file) *)
+Record msg := { m_type : mtype; m_cat : qstr; m_text : qstr; m_tid : N; m_time : qstr; m_day : N }.
 
 (* ------------------------------------------------------------------ ANSI SGR sequences *)
 (* a character class as a list of inclusive ranges, as read from the regular expression *)
@@ -294,6 +296,13 @@ Record ini_src := {
 Definition console_slot (src : ini_src) (s : ini) (en col : bkey * bool) (mk : cmode -> handler) : list handler :=
   if readb s en || readb s col
   then [mk (if readb s col then i_color_on src else i_color_off src)] else [].
+(* the file sink the `path` key builds: always the rotating sink, options from the keys *)
+Definition ini_fparams (src : ini_src) (s : ini) : fparams :=
+  {| f_path := k_path s; f_rotating := true;
+     f_size := readz (k_max_size s) (i_max_size src);
+     f_count := readz (k_max_count s) (i_max_count src);
+     f_startup := readb s (i_startup src); f_daily := readb s (i_daily src);
+     f_compress := readb s (i_compress src) |}.
 Definition slot_handlers (src : ini_src) (s : ini) (sl : slot) : list handler :=
   match sl with
   | SRules => if emptyb (rules_text (k_rules s)) then [] else [HCat (k_rules s)]
@@ -307,12 +316,7 @@ Definition slot_handlers (src : ini_src) (s : ini) (sl : slot) : list handler :=
   | SStderr => console_slot src s (i_stderr_en src) (i_stderr_col src) HStderr
   | SPlatform => if readb s (i_platform_en src) then [HPlatform (i_platform_mode src)] else []
   | SSyslog => if emptyb (k_syslog s) then [] else [HSyslog (k_syslog s)]
-  | SFile => if emptyb (k_path s) then [] else
-               [HFile {| f_path := k_path s; f_rotating := true;
-                         f_size := readz (k_max_size s) (i_max_size src);
-                         f_count := readz (k_max_count s) (i_max_count src);
-                         f_startup := readb s (i_startup src); f_daily := readb s (i_daily src);
-                         f_compress := readb s (i_compress src) |}]
+  | SFile => if emptyb (k_path s) then [] else [HFile (ini_fparams src s)]
   end.
 Definition build_ini (src : ini_src) (s : ini) : list handler :=
   flat_map (slot_handlers src s) (i_order src).
@@ -388,15 +392,16 @@ Record ol_src := {
 Definition ol_rotating (src : ol_src) (a : oneline) : bool :=
   (ol_rot_size src && Z.ltb 0 (o_size a)) || (ol_rot_startup src && o_startup a)
   || (ol_rot_daily src && o_daily a).
+Definition ol_fparams (src : ol_src) (a : oneline) : fparams :=
+  {| f_path := o_path a; f_rotating := ol_rotating src a; f_size := o_size a;
+     f_count := o_count a; f_startup := o_startup a; f_daily := o_daily a;
+     f_compress := o_compress a |}.
 Definition oslot_handlers (src : ol_src) (a : oneline) (sl : oslot) : list handler :=
   match sl with
   | OPrettyS => [HPretty (ol_colorize src) (ol_maxcat src)]
   | OPlatformS => [HPlatform (ol_platform_mode src)]
   | OStripS => if emptyb (o_path a) then [] else [HStrip (ol_strip_class src)]
-  | OFileS => if emptyb (o_path a) then [] else
-                [HFile {| f_path := o_path a; f_rotating := ol_rotating src a; f_size := o_size a;
-                          f_count := o_count a; f_startup := o_startup a; f_daily := o_daily a;
-                          f_compress := o_compress a |}]
+  | OFileS => if emptyb (o_path a) then [] else [HFile (ol_fparams src a)]
   end.
 Definition build_oneline (src : ol_src) (a : oneline) : list handler :=
   flat_map (oslot_handlers src a) (ol_order src).
@@ -418,70 +423,227 @@ Definition prop_ini_b (s : ini) (e : env) (ms : list msg) (obs_out obs_err obs_f
 (* one-line: the log file holds the console text minus its colour codes *)
 Definition prop_oneline_b (console file : qstr) : bool := seqb file (strip_sgr console).
 
+
+(* ------------------------------------------------------------------ which file holds which record *)
+(* The `daily` / `startup` options speak about FILES, not streams: lines written on an earlier day
+   (or by an earlier run) are moved to <base>.<date>.<index>.<suffix>.  Records are abstracted to the
+   day they were written (the texts are the business of the stream oracles above); the log file
+   found at start holds npre lines last modified on day d0.  Model of FileSink /
+   RotatingFileSink::send for a SYNCHRONOUS stream (the clock at processing = the message's time)
+   restricted to what this property needs: rotation by size and the retention limit are NOT
+   modelled (C05-C09) - the check applies the layout oracle only to cases where neither can
+   trigger (f_size <= 0 or far above the volume; f_count <= 0 or above the number of rotations). *)
+Definition rfile := (N * nat * list N)%type.     (* date in the name, index, days of its records *)
+Record flay := { fl_date : N;                    (* m_currentLogDate *)
+                 fl_active : list N;             (* the file at `path` *)
+                 fl_rot : list rfile }.          (* rotated files, in the order they were made *)
+Definition nonemptyb {A} (l : list A) : bool := match l with [] => false | _ => true end.
+(* findNextIndexForDate: one more than the highest index used with that date *)
+Definition next_rot_index (d : N) (rot : list rfile) : nat :=
+  S (fold_left (fun mx (r : rfile) => if fst (fst r) =? d then Nat.max mx (snd (fst r)) else mx) rot 0%nat).
+(* rotate(): nothing when maxFileCount == 1; the rotated name carries m_currentLogDate *)
+Definition fl_rotate (count : Z) (now : N) (s : flay) : flay :=
+  if (count =? 1)%Z then s else
+    {| fl_date := now; fl_active := [];
+       fl_rot := fl_rot s ++ [(fl_date s, next_rot_index (fl_date s) (fl_rot s), fl_active s)] |}.
+(* init() at the first send: the date of a non-empty file is its modification date *)
+Definition fl_init (f : fparams) (pre : list N) (d0 now : N) : flay :=
+  let s := {| fl_date := if nonemptyb pre then d0 else now; fl_active := pre; fl_rot := [] |} in
+  if f_startup f && nonemptyb pre then fl_rotate (f_count f) now s else s.
+(* send() of a message dated d (checkDailyRotation, then the write) *)
+Definition fl_send (f : fparams) (s : flay) (d : N) : flay :=
+  let s1 := if f_daily f && negb (d =? fl_date s) && nonemptyb (fl_active s)
+            then let s' := fl_rotate (f_count f) d s in
+                 {| fl_date := d; fl_active := fl_active s'; fl_rot := fl_rot s' |}
+            else s in
+  {| fl_date := fl_date s1; fl_active := fl_active s1 ++ [d]; fl_rot := fl_rot s1 |}.
+Definition layout (f : fparams) (npre : nat) (d0 : N) (days : list N) : flay :=
+  let pre := repeat d0 npre in
+  if f_rotating f then
+    match days with
+    | [] => {| fl_date := d0; fl_active := pre; fl_rot := [] |}
+    | d :: _ => fold_left (fl_send f) days (fl_init f pre d0 d)
+    end
+  else {| fl_date := d0; fl_active := pre ++ days; fl_rot := [] |}.     (* plain FileSink: append *)
+(* what can be seen in the directory: per rotated file its date, index and number of records; the
+   number of records of the active file *)
+Definition lay_obs (s : flay) : list (N * nat * nat) * nat :=
+  (map (fun r : rfile => (fst r, List.length (snd r))) (fl_rot s), List.length (fl_active s)).
+(* the days of the records that reach the file *)
+Definition ini_file_days (s : ini) (ms : list msg) : list N :=
+  if want_file s then map m_day (filter (passes s) ms) else [].
+Definition ol_file_days (a : oneline) (ms : list msg) : list N :=
+  if emptyb (o_path a) then [] else map m_day ms.
+
+(* ---- what the options SAY about the files (specification, independent of the sink chosen) ---- *)
+Record fwant := { w_startup : bool; w_daily : bool; w_size : Z; w_count : Z }.
+Definition ini_want (s : ini) : fwant :=
+  {| w_startup := getb (k_startup s) true; w_daily := getb (k_daily s) false;
+     w_size := readz (k_max_size s) 1048576; w_count := readz (k_max_count s) 5 |}.
+Definition ol_want (a : oneline) : fwant :=
+  {| w_startup := o_startup a; w_daily := o_daily a; w_size := o_size a; w_count := o_count a |}.
+Fixpoint chunks (ns : list nat) (l : list N) : list (list N) :=
+  match ns with [] => [] | n :: r => firstn n l :: chunks r (skipn n l) end.
+Definition nsum (ns : list nat) : nat := fold_right Nat.add 0%nat ns.
+Definition single_day (d : N) (c : list N) : bool := nonemptyb c && forallb (N.eqb d) c.
+Fixpoint forallb2 {A B} (p : A -> B -> bool) (a : list A) (b : list B) : bool :=
+  match a, b with [] , [] => true | x :: a', y :: b' => p x y && forallb2 p a' b' | _, _ => false end.
+Definition rotation_off (w : fwant) : bool :=
+  (w_count w =? 1)%Z || (negb (w_startup w) && negb (w_daily w) && (w_size w <=? 0)%Z).
+(* obs: the rotated files in (date, index) order with their record counts, and the count of the
+   active file.  The records, in order, are the npre old lines (day d0) followed by one per entry of
+   days (that the TEXT is preserved is checked by the stream oracles on the concatenation).
+   - nothing is lost or duplicated by moving files around;
+   - documented: maxFileCount == 1 disables rotation; no option => no rotated file;
+   - daily: no file mixes days, a rotated file is named after the day of its lines (so lines of an
+     earlier day are NOT left in the active file once a message of another day arrives);
+   - startup: the lines found at start are alone in the first rotated file. *)
+Definition prop_layout_b (w : fwant) (npre : nat) (d0 : N) (days : list N)
+           (obs : list (N * nat * nat) * nat) : bool :=
+  let rot := fst obs in
+  let all := repeat d0 npre ++ days in
+  let ns := map snd rot in
+  let rest := skipn (nsum ns) all in
+  Nat.eqb (nsum ns + snd obs) (List.length all)
+  && (if rotation_off w then negb (nonemptyb rot) else true)
+  && (if w_daily w && negb (w_count w =? 1)%Z
+      then forallb2 (fun (r : N * nat * nat) c => single_day (fst (fst r)) c) rot (chunks ns all)
+           && match rest with [] => true | d :: _ => forallb (N.eqb d) rest end
+      else true)
+  && (if w_startup w && negb (w_count w =? 1)%Z && Nat.ltb 0 npre && nonemptyb days
+      then match rot with r :: _ => (fst (fst r) =? d0) && Nat.eqb (snd r) npre | [] => false end
+      else true).
+
 (* ------------------------------------------------------------------ install / restore *)
-Inductive mh := Default | Logger | Foreign (n : nat).           (* the process's message handler *)
+(* Qt's current message handler.  Logger = the static Logger::messageHandler, shared by every
+   Logger object of the process *)
+Inductive mh := Default | Logger | Foreign (n : nat).
 Definition mh_eqb (a b : mh) : bool :=
   match a, b with Default, Default | Logger, Logger => true | Foreign x, Foreign y => Nat.eqb x y
                 | _, _ => false end.
 Definition is_logger (h : mh) : bool := mh_eqb h Logger.
-(* cur: Qt's current handler; saved: g_previousMessageHandler (None = nullptr) *)
-Record ist := { cur : mh; saved : option mh }.
-Inductive iop := Install | Restore | ForeignInstall (n : nat) | ForeignReset.
-(* shape of the two functions as read from logger.cpp *)
+(* who gets a message emitted through Qt's macros: Qt's default handler, a foreign handler, the
+   pipeline of logger object k, or nobody (Logger::messageHandler with no active logger) *)
+Inductive recv := RDefault | RForeign (n : nat) | RLogger (k : nat) | RNone.
+Definition recv_eqb (a b : recv) : bool :=
+  match a, b with RDefault, RDefault | RNone, RNone => true | RForeign x, RForeign y => Nat.eqb x y
+                | RLogger x, RLogger y => Nat.eqb x y | _, _ => false end.
+Definition memb (k : nat) (l : list nat) : bool := existsb (Nat.eqb k) l.
+Definition remove_id (k : nat) (l : list nat) : list nat := filter (fun j => negb (Nat.eqb j k)) l.
+(* cur: Qt's current handler; saved: g_previousMessageHandler (None = nullptr); active:
+   g_activeLogger; alive: the Logger objects that exist (0 = the singleton Logger::instance(),
+   others = stack / scoped / heap loggers made with the public constructor) *)
+Record ist := { cur : mh; saved : option mh; active : option nat; alive : list nat }.
+Inductive iop := Install (k : nat) | Restore | ForeignInstall (n : nat) | ForeignReset
+               | Create (k : nat) | Destroy (k : nat).
+(* shape of the functions as read from logger.cpp *)
 Record inst_src := {
   n_save_unless_own : bool;      (* `if (prev != messageHandler) g_previous = prev;` (false: always saves) *)
   n_restore_guard : bool;        (* `if (!g_previous) return;` *)
   n_putback_foreign : bool;      (* `if (prev != messageHandler) qInstallMessageHandler(prev);` *)
-  n_clear_saved : bool }.        (* `g_previous = nullptr;` *)
+  n_clear_saved : bool;          (* `g_previous = nullptr;` *)
+  n_dtor_clears_active : bool;   (* ~Logger: `g_activeLogger.testAndSetOrdered(this, nullptr)` *)
+  n_dtor_clears_saved : bool }.  (* ~Logger of the active logger also resets g_previous (today: no) *)
 Definition doc_inst : inst_src :=
-  {| n_save_unless_own := true; n_restore_guard := true; n_putback_foreign := true; n_clear_saved := true |}.
-(* qInstallMessageHandler(h) returns the old handler (the default one when none was set) *)
+  {| n_save_unless_own := true; n_restore_guard := true; n_putback_foreign := true; n_clear_saved := true;
+     n_dtor_clears_active := true; n_dtor_clears_saved := false |}.
+Definition is_active (s : ist) (k : nat) : bool :=
+  match active s with Some j => Nat.eqb j k | None => false end.
+(* qInstallMessageHandler(h) returns the old handler (the default one when none was set).
+   Calls on a logger that does not exist (and creating one that does) are not calls: no effect *)
 Definition istep (src : inst_src) (s : ist) (o : iop) : ist :=
   match o with
-  | Install => let prev := cur s in
-               {| cur := Logger;
-                  saved := if n_save_unless_own src && is_logger prev then saved s else Some prev |}
+  | Install k =>
+      if memb k (alive s) then
+        let prev := cur s in
+        {| cur := Logger;
+           saved := if n_save_unless_own src && is_logger prev then saved s else Some prev;
+           active := Some k; alive := alive s |}
+      else s
   | Restore =>
       match saved s with
       | None => if n_restore_guard src then s
                 else (* qInstallMessageHandler(nullptr) = the default handler *)
                   {| cur := if n_putback_foreign src && negb (is_logger (cur s)) then cur s else Default;
-                     saved := None |}
+                     saved := None; active := active s; alive := alive s |}
       | Some p => let prev := cur s in
                   {| cur := if n_putback_foreign src && negb (is_logger prev) then prev else p;
-                     saved := if n_clear_saved src then None else saved s |}
+                     saved := if n_clear_saved src then None else saved s;
+                     active := active s; alive := alive s |}
       end
-  | ForeignInstall n => {| cur := Foreign n; saved := saved s |}
-  | ForeignReset => {| cur := Default; saved := saved s |}
+  | ForeignInstall n => {| cur := Foreign n; saved := saved s; active := active s; alive := alive s |}
+  | ForeignReset => {| cur := Default; saved := saved s; active := active s; alive := alive s |}
+  | Create k => if memb k (alive s) then s
+                else {| cur := cur s; saved := saved s; active := active s; alive := k :: alive s |}
+  | Destroy k =>
+      if memb k (alive s) then
+        {| cur := cur s;
+           saved := if n_dtor_clears_saved src && is_active s k then None else saved s;
+           active := if n_dtor_clears_active src && is_active s k then None else active s;
+           alive := remove_id k (alive s) |}
+      else s
   end.
-Definition i0 : ist := {| cur := Default; saved := None |}.
+Definition i0 : ist := {| cur := Default; saved := None; active := None; alive := [0%nat] |}.
 Definition irun (src : inst_src) (ops : list iop) : ist := fold_left (istep src) ops i0.
-(* the observable: which handler is current after each call *)
-Fixpoint iexec (src : inst_src) (s : ist) (ops : list iop) : list mh :=
-  match ops with [] => [] | o :: r => let s' := istep src s o in cur s' :: iexec src s' r end.
-Definition itrace (src : inst_src) (ops : list iop) : list mh := iexec src i0 ops.
-(* on a trace of current handlers: the handler that was current just before the logger last took
-   over from a non-logger handler *)
+(* Logger::messageHandler: `auto logger = g_activeLogger; if (!logger) return; logger->processMessage` *)
+Definition receiver (s : ist) : recv :=
+  match cur s with
+  | Default => RDefault
+  | Foreign n => RForeign n
+  | Logger => match active s with Some k => RLogger k | None => RNone end
+  end.
+(* the observable: after each call, which handler is current and who receives a message *)
+Fixpoint iexec (src : inst_src) (s : ist) (ops : list iop) : list (mh * recv) :=
+  match ops with [] => [] | o :: r => let s' := istep src s o in (cur s', receiver s') :: iexec src s' r end.
+Definition itrace (src : inst_src) (ops : list iop) : list (mh * recv) := iexec src i0 ops.
+(* on a trace of current handlers: the handler that was current just before the logger's handler
+   last took over from a non-logger handler *)
 Fixpoint last_takeover (prev : mh) (cs : list mh) (acc : option mh) : option mh :=
   match cs with
   | [] => acc
   | c :: r => last_takeover c r (if is_logger c && negb (is_logger prev) then Some prev else acc)
   end.
-(* oracle on an OBSERVED trace (cs = handler current after each op): every call has the specified
-   effect on the current handler *)
-Fixpoint trace_ok_from (prev : mh) (acc : option mh) (ops : list iop) (cs : list mh) : bool :=
-  match ops, cs with
+(* who receives messages while handler h is current (h not the logger's) *)
+Definition recv_of (h : mh) : recv :=
+  match h with Default => RDefault | Foreign n => RForeign n | Logger => RNone end.
+(* Qt delivers to the current handler; the logger's handler can only deliver to a logger that exists *)
+Definition recv_ok (c : mh) (r : recv) (al : list nat) : bool :=
+  match c with
+  | Logger => match r with RLogger k => memb k al | RNone => true | _ => false end
+  | _ => recv_eqb r (recv_of c)
+  end.
+Definition alive_after (al : list nat) (o : iop) : list nat :=
+  match o with
+  | Create k => if memb k al then al else k :: al
+  | Destroy k => remove_id k al
+  | _ => al
+  end.
+(* oracle on an OBSERVED trace: every call has the specified effect.
+   - install by an existing logger makes the logger's handler current and that logger the receiver;
+   - a foreign call installs what it says;
+   - restore: if the logger's handler is current, the handler that was current before the logger's
+     handler last took over is current again AND receives the messages - whichever Logger objects
+     did the installs and whether or not they still exist; otherwise the current handler stays;
+   - creating a logger changes nothing; destroying one never replaces a non-logger handler (what
+     it does while the logger's handler is current is not specified by the property) *)
+Fixpoint trace_ok_from (prev : mh) (acc : option mh) (al : list nat) (ops : list iop)
+         (obs : list (mh * recv)) : bool :=
+  match ops, obs with
   | [], [] => true
-  | o :: ops', c :: cs' =>
+  | o :: ops', (c, r) :: obs' =>
       let acc' := if is_logger c && negb (is_logger prev) then Some prev else acc in
+      let al' := alive_after al o in
       (match o with
-       | Install => is_logger c
+       | Install k => if memb k al then is_logger c && recv_eqb r (RLogger k) else mh_eqb c prev
        | ForeignInstall n => mh_eqb c (Foreign n)
        | ForeignReset => mh_eqb c Default
        | Restore => if is_logger prev
                     then match acc with Some p => mh_eqb c p | None => false end
                     else mh_eqb c prev
-       end) && trace_ok_from c acc' ops' cs'
+       | Create _ => mh_eqb c prev
+       | Destroy _ => is_logger prev || mh_eqb c prev
+       end) && recv_ok c r al' && trace_ok_from c acc' al' ops' obs'
   | _, _ => false
   end.
-Definition prop_install_b (ops : list iop) (cs : list mh) : bool := trace_ok_from Default None ops cs.
+Definition prop_install_b (ops : list iop) (obs : list (mh * recv)) : bool :=
+  trace_ok_from Default None [0%nat] ops obs.
